@@ -93,6 +93,122 @@ Section Identity2.
         exact (ext_find _ _ _ _ X2 Ef).
       + cbn [nth_error] in *. exact (A2 i t' m Hn Hm Hne FO).
   Qed.
+
+  (* ---------- one partition per set, in every state of the invariant ---------- *)
+  Lemma one_entry_per_set st e1 e2 : Inv2 st -> In e1 (t_map st) -> In e2 (t_map st) ->
+    d_tags (snd e1) = d_tags (snd e2) -> e1 = e2.
+  Proof.
+    intros I H1 H2 E. destruct e1 as [l1 d1], e2 as [l2 d2]. cbn [snd] in E.
+    destruct (inv2_entry st I _ _ H1) as (E1 & _). destruct (inv2_entry st I _ _ H2) as (E2 & _).
+    apply (nodup_map_inj fst (t_map st)); [exact (inv2_keys st I)|exact H1|exact H2|].
+    cbn [fst]. rewrite E1, E2, E. reflexivity.
+  Qed.
+
+  (* ---------- GetJournal: look-up by any spelling, never a creation ---------- *)
+  Lemma get_no_create st text :
+    fst (get_or_create quote unquote st text false) = st /\
+    (Inv2 st -> forall m, to_map unquote text = Ok m -> m <> [] -> fast_ok_D text m ->
+       match tbl_find (t_map st) (line quote m) with
+       | Some d => snd (get_or_create quote unquote st text false) = GSrc (d_src d) m /\ d_tags d = m
+       | None => snd (get_or_create quote unquote st text false) = GNotFound
+       end).
+  Proof.
+    unfold get_or_create.
+    destruct (tbl_find (t_map st) text) as [d|] eqn:F1.
+    { split; [reflexivity|]. intros I m Hm _ FO.
+      destruct (inv2_entry st I _ _ (tbl_find_in _ _ _ F1)) as (El & _ & Dd & _).
+      pose proof (FO (d_tags d) Dd (eq_sym El)) as Ed. subst m. rewrite <- El, F1. split; reflexivity. }
+    destruct (to_map unquote text) as [m| | |] eqn:Hm; try (split; [reflexivity|]; intros I m' Hm'; discriminate).
+    destruct (is_nil m) eqn:Hnil.
+    { split; [reflexivity|]. intros I m' Hm' Hne. injection Hm' as <-. destruct m; [congruence|discriminate]. }
+    destruct (tbl_find (t_map st) (line quote m)) as [d|] eqn:F2.
+    - split; [reflexivity|]. intros I m' Hm' _ _. injection Hm' as <-. rewrite F2.
+      pose proof (to_map_wfset text m Hm) as (Sm & Nm).
+      destruct (inv2_entry st I _ _ (tbl_find_in _ _ _ F2)) as (El & (Sd & Nd) & _).
+      pose proof (line_injective quote unquote QS m (d_tags d) Sm Sd Nm Nd El) as Ed.
+      split; [rewrite <- Ed; reflexivity|symmetry; exact Ed].
+    - split; [reflexivity|]. intros I m' Hm' _ _. injection Hm' as <-. rewrite F2. reflexivity.
+  Qed.
+
+  (* ---------- Delete, then the set again ---------- *)
+  Lemma NoDup_map_filter {A B} (f : A -> B) (p : A -> bool) l : NoDup (map f l) -> NoDup (map f (filter p l)).
+  Proof.
+    induction l as [|a l IH]; intros H; [constructor|]. cbn [map] in H. inversion H as [|? ? Hn ND]; subst.
+    cbn [filter]. destruct (p a); [|exact (IH ND)]. cbn [map]. constructor; [|exact (IH ND)].
+    intros Hin. apply Hn. apply in_map_iff in Hin as (x & E & Hx). apply filter_In in Hx as [Hx _].
+    rewrite <- E. apply in_map. exact Hx.
+  Qed.
+
+  Lemma delete_key_inv st l d : Inv2 st -> In (l, d) (t_map st) ->
+    Inv2 (t_delete_key st l) /\ tbl_find (t_map (t_delete_key st l)) l = None /\
+    (forall e, In e (t_map (t_delete_key st l)) <-> In e (t_map st) /\ e <> (l, d)).
+  Proof.
+    intros I Hin. unfold t_delete_key. cbn [t_map t_next].
+    assert (Mem : forall e, In e (filter (fun e : bytes * desc => negb (bytes_eqb (fst e) l)) (t_map st)) <->
+                            In e (t_map st) /\ e <> (l, d)).
+    { intros e. rewrite filter_In. split; intros (H1 & H2); split; try exact H1.
+      - intros ->. cbn [fst] in H2. rewrite bytes_eqb_refl in H2. discriminate.
+      - apply negb_true_iff. destruct (bytes_eqb (fst e) l) eqn:E; [|reflexivity]. exfalso. apply H2.
+        apply bytes_eqb_eq in E. apply (nodup_map_inj fst (t_map st)); [exact (inv2_keys st I)|exact H1|exact Hin|exact E]. }
+    split; [|split; [|exact Mem]].
+    - constructor; cbn [t_map t_next].
+      + intros l' d' H. apply Mem in H as [H _]. exact (inv2_entry st I _ _ H).
+      + apply NoDup_map_filter. exact (inv2_keys st I).
+      + apply NoDup_map_filter. exact (inv2_srcs st I).
+    - destruct (tbl_find _ l) as [d'|] eqn:F; [|reflexivity]. exfalso.
+      apply tbl_find_in in F. apply filter_In in F as [_ F]. cbn [fst] in F. rewrite bytes_eqb_refl in F. discriminate.
+  Qed.
+
+  Lemma find_src_entry st src d : Inv2 st -> find_src st src = Some d -> d_src d = src /\ In (line quote (d_tags d), d) (t_map st).
+  Proof.
+    intros I. unfold find_src. destruct (find _ (t_map st)) as [[l d']|] eqn:F; [|discriminate].
+    intros E. injection E as <-. apply find_some in F as [Hin Hs]. cbn [snd] in Hs. apply Nat.eqb_eq in Hs.
+    split; [exact Hs|]. destruct (inv2_entry st I _ _ Hin) as (El & _). rewrite <- El. exact Hin.
+  Qed.
+
+  Theorem delete_recreate st src text m :
+    Inv2 st -> (exists l d, In (l, d) (t_map st) /\ d_src d = src /\ d_tags d = m) ->
+    to_map unquote text = Ok m -> m <> [] -> D m -> fast_ok_D text m ->
+    let '(st1, r1) := t_delete quote st src in
+    let '(st2, r2) := get_or_create quote unquote st1 text true in
+    r1 = GSrc src [] /\ Inv2 st1 /\ tbl_find (t_map st1) (line quote m) = None /\
+    snd (get_or_create quote unquote st1 text false) = GNotFound /\
+    Inv2 st2 /\ r2 = GSrc (t_next st) m /\ t_next st <> src /\
+    (forall e, In e (t_map st2) -> d_tags (snd e) = m -> d_src (snd e) = t_next st).
+  Proof.
+    intros I (l & d & Hin & Hs & Ht) Hm Hne Dm FO. unfold t_delete.
+    destruct (find_src st src) as [d'|] eqn:F.
+    2:{ exfalso. unfold find_src in F. destruct (find _ (t_map st)) eqn:F'; [discriminate|].
+        pose proof (find_none _ _ F' _ Hin) as N. cbn [snd] in N. rewrite Hs, Nat.eqb_refl in N. discriminate. }
+    destruct (find_src_entry st src d' I F) as (Hs' & Hin').
+    assert (Ed : d' = d).
+    { assert (E : (line quote (d_tags d'), d') = (l, d)).
+      { apply (nodup_map_inj src_of_entry (t_map st)); [exact (inv2_srcs st I)|exact Hin'|exact Hin|].
+        unfold src_of_entry. cbn [snd]. congruence. }
+      injection E as _ E. exact E. }
+    subst d'. rewrite Ht in *.
+    destruct (delete_key_inv st _ d I Hin') as (I1 & F1 & Mem).
+    set (st1 := t_delete_key st (line quote m)) in *.
+    pose proof (goc_step2 st1 text I1 (fun m' H => eq_ind m D Dm m' (f_equal (fun o => match o with Ok x => x | _ => m end) (eq_trans (eq_sym Hm) H)))) as S.
+    destruct (get_no_create st1 text) as (_ & G). specialize (G I1 m Hm Hne FO). rewrite F1 in G.
+    destruct (get_or_create quote unquote st1 text true) as [st2 r2] eqn:E2.
+    destruct S as (I2 & X & A). destruct (A m Hm Hne FO) as (dn & Er & Fn & Tn).
+    (* the new entry is the created one: its id is t_next *)
+    assert (Hnew : d_src dn = t_next st).
+    { unfold get_or_create in E2.
+      destruct (tbl_find (t_map st1) text) as [d0|] eqn:F0.
+      { exfalso. destruct (inv2_entry st1 I1 _ _ (tbl_find_in _ _ _ F0)) as (El0 & _ & D0 & _).
+        pose proof (FO (d_tags d0) D0 (eq_sym El0)) as E0. rewrite El0, E0, F1 in F0. discriminate. }
+      rewrite Hm in E2. destruct m as [|kv0 m0]; [congruence|]. cbn [is_nil] in E2. rewrite F1 in E2.
+      injection E2 as <- <-. cbn [t_map] in Fn. rewrite (tbl_find_app_new _ _ _ F1) in Fn. injection Fn as <-. reflexivity. }
+    assert (Hlt : src < t_next st).
+    { destruct (inv2_entry st I _ _ Hin) as (_ & _ & _ & L). rewrite Hs in L. exact L. }
+    split; [reflexivity|]. split; [exact I1|]. split; [exact F1|]. split; [exact G|]. split; [exact I2|].
+    split; [rewrite Er, Hnew; reflexivity|]. split; [lia|].
+    intros e He Te. assert (E : e = (line quote m, dn)).
+      { apply (one_entry_per_set st2 e (line quote m, dn) I2 He (tbl_find_in _ _ _ Fn)). cbn [snd]. rewrite Te, Tn. reflexivity. }
+      rewrite E. cbn [snd]. exact Hnew.
+  Qed.
 End Identity2.
 
 (* ---------- C06 identity: over ANY history, for calls on which the raw-text fast path is sound ---------- *)
@@ -131,4 +247,37 @@ Lemma rt_ok_fast_ok quote unquote texts :
 Proof.
   intros RT t m Hm t' m' Hin Hm' El. specialize (RT t' m' Hin Hm'). unfold rt_ok in RT.
   rewrite El, Hm in RT. injection RT as ->. reflexivity.
+Qed.
+
+(* ---------- racing first writes of one set, any number of writers, any schedule ---------- *)
+(* a call runs under ims.lock: a schedule of k racing calls after the history pre is an order ts of their texts *)
+Theorem race_any_schedule quote unquote : QuoteSpec quote unquote -> forall pre ts m,
+  (forall t, In t ts -> to_map unquote t = Ok m /\ fast_ok quote unquote (pre ++ ts) t m) -> m <> [] ->
+  exists s, forall k t, nth_error ts k = Some t ->
+    nth_error (snd (run quote unquote t_empty (pre ++ ts))) (length pre + k) = Some (GSrc s m).
+Proof.
+  intros QS pre ts m H Hne. destruct ts as [|t0 ts']; [exists 0; intros k t Hk; destruct k; discriminate|].
+  set (ts := t0 :: ts') in *.
+  assert (N : forall k t, nth_error ts k = Some t -> nth_error (pre ++ ts) (length pre + k) = Some t).
+  { intros k t Hk. rewrite nth_error_app2 by lia. replace (length pre + k - length pre) with k by lia. exact Hk. }
+  destruct (H t0 (or_introl eq_refl)) as (Hm0 & FO0).
+  destruct (identity2 quote unquote QS (pre ++ ts) (length pre + 0) (length pre + 0) t0 t0 m m
+              (N 0 t0 eq_refl) (N 0 t0 eq_refl) Hm0 Hm0 Hne Hne FO0 FO0) as (s0 & _ & R0 & _ & _).
+  exists s0. intros k t Hk. destruct (H t (nth_error_In _ _ Hk)) as (Hm & FO).
+  destruct (identity2 quote unquote QS (pre ++ ts) (length pre + 0) (length pre + k) t0 t m m
+              (N 0 t0 eq_refl) (N k t Hk) Hm0 Hm Hne Hne FO0 FO) as (s1 & s2 & R1 & R2 & Iff).
+  rewrite R0 in R1. injection R1 as <-. rewrite R2. f_equal. f_equal. symmetry. apply Iff. reflexivity.
+Qed.
+
+(* in every state a history reaches there is one partition per set: a reader never sees a set twice *)
+Theorem reachable_one_partition_per_set quote unquote : QuoteSpec quote unquote -> forall texts e1 e2,
+  In e1 (t_map (fst (run quote unquote t_empty texts))) -> In e2 (t_map (fst (run quote unquote t_empty texts))) ->
+  d_tags (snd e1) = d_tags (snd e2) -> e1 = e2.
+Proof.
+  intros QS texts e1 e2.
+  set (D := fun m => exists t, In t texts /\ to_map unquote t = Ok m).
+  pose proof (run_spec2 quote unquote QS D texts t_empty (inv2_empty quote D)
+                (fun t m Hin Hm => ex_intro _ t (conj Hin Hm))) as S.
+  destruct (run quote unquote t_empty texts) as [st' rs]. destruct S as (I & _). cbn [fst].
+  exact (one_entry_per_set quote D st' e1 e2 I).
 Qed.
